@@ -187,8 +187,10 @@ func (r *HttpRequest) RunOperation(opType op.BinaryOpType, right object.Object) 
 }
 
 func (r *HttpRequest) AddHeaders(headers *object.Map) {
-	for k, v := range headers.Value() {
-		r.AddHeader(k, v)
+	// In the order of the keys: names that differ only in case are one
+	// header, to which each is appended (and the last "host" is the Host)
+	for _, k := range headers.SortedKeys() {
+		r.AddHeader(k, headers.Get(k))
 	}
 }
 
